@@ -79,7 +79,9 @@ def _cargo_check(args, facts_out, target, log, cwd=None):
 
 
 def ensure_facts(log=lambda s: None, need_corpus=True):
-    """Returns (facts_dir, meta). Extracts when no cached extraction for the current tree hash exists."""
+    """Returns (facts_dir, meta). Extracts when no cached extraction for the current tree hash exists.
+    The corpus is always extracted together with /repo (one cache entry serves every check)."""
+    need_corpus = True
     os.makedirs(WORK, exist_ok=True)
     lockf = open(os.path.join(WORK, 'lock'), 'w')
     fcntl.flock(lockf, fcntl.LOCK_EX)
